@@ -71,7 +71,7 @@ _EX = {}
 def to_case(v):
     toks, lseed, cseed = v
     cseed = family.cfg_seed(cseed)
-    src, r = layout.render(toks, random.Random(lseed), 'C', dict(bs_cmt=0.15))
+    src, r = layout.render(toks, random.Random(lseed), 'C', dict(bs_cmt=0.15, p_bs_trail=0.15))
     rng = random.Random(cseed)
     k = cseed % 5
     if k == 0:
@@ -173,7 +173,7 @@ def main(ctx):
                 cases.append(family.Case(corpus.read(rel), lang, cd, {'kind': 'sweep', 'file': rel}))
     ctx.extra['sweep_options'] = len(opts)
     # the full sweep (every add/remove/force option of the class x 4 values) on two fixed generated programs
-    fixed_c = layout.render(gen_c.fixed_program(2), random.Random(7), 'C', dict(p_cmt=0.05))[0].encode()
+    fixed_c = layout.render(gen_c.fixed_program(7, pp_split=True), random.Random(7), 'C', dict(p_cmt=0.05))[0].encode()
     cpp_toks = []
     for i in range(len(gen_cpp.SNIPPETS)):
         cpp_toks += gen_cpp.tokens_of(gen_cpp.SNIPPETS[i], '%d' % i)
